@@ -131,6 +131,7 @@ def build(h, clause, fn, *args, must_accept=False, **kwargs):
     except EngineSignal:
         raise
     except (ValueError, TypeError, IndexError, NotImplementedError) as e:
+        h.last_rejection = e
         if must_accept:
             h.fail(f"{clause}.accepts-what-numpy-accepts",
                    f"{type(e).__name__}: {e}", props=("C01",))
@@ -564,9 +565,15 @@ class Reductions(Contract):
             nonneg_axes = axis is None or (
                 axis >= 0 if isinstance(axis, int)
                 else all(x >= 0 for x in axis))
-            if np_ok and nonneg_axes:
+            unsupported_parametric = isinstance(
+                getattr(h, "last_rejection", None), NotImplementedError) \
+                and any(isinstance(ns[d], pt.Array) for d in norm)
+            if np_ok and nonneg_axes and not unsupported_parametric:
                 # (negative axes: pytato does not support them, by design --
-                # stricter than NumPy, which no property forbids)
+                # stricter than NumPy, which no property forbids; a reduction
+                # over an axis of parametric length is declined with an
+                # explicit NotImplementedError -- outside the supported
+                # fragment, C16's variant of this contract gets here)
                 # NumPy rejects max/min over an empty axis (no identity);
                 # nothing else about a valid axis argument
                 empty = z3.Or([shape_term(ns[d]) == 0 for d in norm]
